@@ -1,4 +1,5 @@
 import UrcuVerif.Src.RegRefine
+import UrcuVerif.Src.RegBp
 /-!
 # Source refinement, registration (C15): final statements
 
@@ -221,5 +222,68 @@ example : absRunQR (qOut true 2)
     some ([.q .qOff, .q .qFence, .lock, .listDel, .unlock], qOut false 0) := by decide
 example := qsbr_urcu_qsbr_unregister_thread_refines 0 Env.empty [.int 0, .int 0, .int 0, .int 0] (qOut true 2) rfl rfl rfl
   (by intro v hv; simp at hv; exact ⟨0, hv⟩)
+
+/-! ## bp (`src/urcu-bp.c`): bracket shape of `urcu_bp_register` / `urcu_bp_unregister`
+
+Definitions (tags of the external calls, the bracket automaton `K` on `(masked, lockI, lockR)`, the syntactic abstract
+interpreter `flow` and its soundness theorem): header of `Src/RegBp.lean`.  `Good s s' out`: the events of the run are accepted by
+`K` from `s`; the checker state reached is *dead* (an `abort` / `urcu_die` happened) or the run ended `normal` / `blocked` /
+`fuel`, and if `normal` in state `s'`.  No hypothesis on the environment or the oracle: the statements are about every `.ok` run
+(a run that dereferences an unset local / private location is `.error` and not covered). -/
+open UrcuVerif.Src.RegBp
+
+/-- `urcu_bp_register`: from "signals open, no lock" back to it; in between `pthread_sigmask(SIG_BLOCK)` … `SIG_SETMASK` bracket
+`mutex_lock(&init_lock)` … `mutex_unlock(&init_lock)` (around `pthread_key_create`, `membarrier` …) and then
+`mutex_lock(&rcu_registry_lock)` … `mutex_unlock(&rcu_registry_lock)` around everything `add_thread` does (arena scan / expansion,
+`pthread_setspecific`, `cds_list_add(&reader->node, &registry)`) -/
+theorem bp_urcu_bp_register_refines (fuel : Nat) (env : Env) (inp : List Val) (out : Out)
+    (h : exec fuel Gen.Src.«bp.urcu_bp_register» env inp = .ok out) : Good B0 (some B0) out :=
+  flow_sound _ _ _ flow_register fuel env inp out h
+
+/-- `urcu_bp_unregister`: mask; `rcu_registry_lock` around `remove_thread` (`find_chunk`, `cds_list_del`); then `urcu_bp_exit()`
+under `init_lock` (`munmap` of the chunks …) BEFORE the mask is restored (the order since commit 760a93b) -/
+theorem bp_urcu_bp_unregister_refines (fuel : Nat) (env : Env) (inp : List Val) (out : Out)
+    (h : exec fuel Gen.Src.«bp.urcu_bp_unregister» env inp = .ok out) : Good B0 (some B0) out :=
+  flow_sound _ _ _ flow_unregister fuel env inp out h
+
+/-- `add_thread` (with `arena_alloc`, `expand_arena`) on its own: all its events are registry-section events (`arena`,
+`regList`, `abort`): accepted when signals are blocked and `rcu_registry_lock` is held, state unchanged (or dead) -/
+theorem bp_add_thread_refines (fuel : Nat) (env : Env) (inp : List Val) (out : Out)
+    (h : exec fuel Gen.Src.«bp.add_thread» env inp = .ok out) :
+    ∃ t, runB (some BR) out.events = some t ∧ (t = none ∨ t = some BR) :=
+  keeps_run BR out.events (exec_prims (keeps BR) _ add_thread_keeps fuel env inp out h)
+
+theorem bp_remove_thread_refines (fuel : Nat) (env : Env) (inp : List Val) (out : Out)
+    (h : exec fuel Gen.Src.«bp.remove_thread» env inp = .ok out) :
+    ∃ t, runB (some BR) out.events = some t ∧ (t = none ∨ t = some BR) :=
+  keeps_run BR out.events (exec_prims (keeps BR) _ remove_thread_keeps fuel env inp out h)
+
+/-- outside the registry section (lock not held, or signals open) the first registry-list operation is rejected -/
+example : runB (some ⟨true, false, false⟩) [.ext "cds_list_add" [.ptr (.field (.obj 1) "node"), .ptr registryLoc] (.int 0)] = none := by
+  decide
+example : runB (some ⟨false, false, true⟩) [.ext "cds_list_del" [.ptr (.field (.obj 1) "node")] (.int 0)] = none := by decide
+/-- restoring the mask with a lock held, or taking `init_lock` inside the registry section, is rejected -/
+example : runB (some BR) [.ext "pthread_sigmask" [.int 2, .ptr (.glob "&oldmask"), .int 0] (.int 0)] = none := by decide
+example : runB (some BR) [.ext "mutex_lock" [.ptr (.glob "init_lock")] (.int 0)] = none := by decide
+
+/-- the bracket automaton is the projection of L2 (`BpArena.Sig`, the code as it is) on `(blocked, initHeld, regHeld)` -/
+theorem bp_sig_proj_enabled (s : BpArena.Sig.State) (t : Tag) (b' : B) (ht : tagAt s.top = some t)
+    (hk : K (projB s) t = some (some b')) : ∃ s', BpArena.Sig.step BpArena.Sig.real s .run = some s' ∧ projB s' = b' :=
+  sig_proj_enabled s t b' ht hk
+theorem bp_sig_proj_silent (s s' : BpArena.Sig.State) (ht : tagAt s.top = none)
+    (h : BpArena.Sig.step BpArena.Sig.real s .run = some s') : projB s' = projB s := sig_proj_silent s s' ht h
+
+/-- non-vacuity: an already registered thread (`URCU_TLS(urcu_bp_reader) != NULL`, e.g. registered by a signal handler between
+the caller's test and the mask): 3 events, mask and unmask only -/
+def envBpReg : Env :=
+  { vars := fun _ => none, priv := fun l => if l = .tls "urcu_bp_reader" then some (.ptr (.obj 7)) else none }
+example : (exec 0 Gen.Src.«bp.urcu_bp_register» envBpReg [.int 0, .int 0, .int 0]).toOption.map (·.events) =
+    some [.ext "sigfillset" [.ptr (.glob "&newmask")] (.int 0),
+          .ext "pthread_sigmask" [.int 0, .ptr (.glob "&newmask"), .ptr (.glob "&oldmask")] (.int 0),
+          .ext "pthread_sigmask" [.int 2, .ptr (.glob "&oldmask"), .int 0] (.int 0)] := by decide
+example : runB (some B0)
+      [.ext "sigfillset" [.ptr (.glob "&newmask")] (.int 0),
+       .ext "pthread_sigmask" [.int 0, .ptr (.glob "&newmask"), .ptr (.glob "&oldmask")] (.int 0),
+       .ext "pthread_sigmask" [.int 2, .ptr (.glob "&oldmask"), .int 0] (.int 0)] = some (some B0) := by decide
 
 end UrcuVerif.Props.SrcReg
